@@ -128,6 +128,11 @@ theorem WorkerInv.step {s : State} (h : WorkerInv s) (st : Step) (hv : valid s s
           · intro hp; simp only [setPc_phase1] at hp; rw [hph] at hp; cases hp
         · exact h.of_eq rfl rfl rfl rfl rfl rfl
       · exact h.of_eq rfl rfl rfl rfl rfl rfl
+  | executeF prio cb =>
+    simp only [Tbox.C05.step]
+    split
+    · exact h
+    · exact h.of_eq rfl rfl rfl rfl rfl rfl
   | cancel id =>
     simp only [Tbox.C05.step]
     split
